@@ -344,3 +344,18 @@ def run(ctx: Context) -> None:  # noqa: F811
     ctx.rep.rule("C08.R12", "no unlocked check-then-act: outside the advisory predicates, a field that is written under a lock is tested (if / while) only while holding that lock, unless the branch acts on nothing")
     ctx.rep.rule("C08.R11", "lockset census: every written field of a thread-shared class is consistently locked, single-writer-locked with plain reads, or an enumerated benign field; no unlocked check-then-act on a shared table")
     _lockset_census(ctx)
+
+
+
+_core_run_r13 = run
+
+
+def run(ctx: Context) -> None:  # noqa: F811
+    _core_run_r13(ctx)
+    from . import c09
+
+    if ctx.rep._borrow is not None:
+        return          # already running as a lender: no chains
+    with ctx.rep.borrow({"C09.R3": ("C08.R13", "one thread's request cannot close the connection another thread is using: the pool evicts only connections that are idle, expired "
+                                                "or surplus-idle (an ACTIVE HTTP/2 connection is `available`, never a candidate):")}):
+        c09.run(ctx)
